@@ -182,19 +182,7 @@ def run_conditions(prefix, conds, nproc=None, twin_timeout=25):
     return part
 
 
-def replay(case):
-    """Plain-interpreter replay of a CrossHair counterexample: call the harness function concretely."""
-    import importlib
-    inp = case['input']
-    call = inp.get('call')
-    if call is None:
-        return False, 'counterexample arguments could not be parsed: ' + case.get('what', '')[:200]
-    mod = importlib.import_module('vlib.xh.' + inp['module'])
-    fn = getattr(mod, inp['func'])
-    m = re.search(r'TAPE=(\[[^\]]*\])', case.get('what', ''))
-    if m:
-        import vlib.xh.xutil as xutil
-        xutil.REPLAY_TAPE = ast.literal_eval(m.group(1))
+def _call_fails(fn, inp, call):
     try:
         r = fn(*call.get('args', []), **call.get('kwargs', {}))
     except Exception as e:  # noqa
@@ -204,9 +192,106 @@ def replay(case):
         if type(e).__name__ in names:
             return False, 'raised documented %s' % type(e).__name__
         return True, '%s%r raised %s: %s' % (inp['func'], call, type(e).__name__, e)
-    if r is False or r is None and False:
+    if r is False:
         return True, '%s(**%r) returned False on the real code' % (inp['func'], call.get('kwargs'))
     return (not bool(r)), '%s returned %r' % (inp['func'], r)
+
+
+def _warmup_calls(fn, n=300, seed=20261003):
+    """A deterministic sequence of argument tuples inside the harness precondition (integer bounds read from the
+    `pre:` line, booleans both ways): the other calls a process may have made before the one under replay."""
+    import inspect
+    import random
+    doc = fn.__doc__ or ''
+    bounds = {}
+    for lo, name, hi in re.findall(r'(-?\d+) <= (\w+) <= (-?\d+)', doc):
+        bounds[name] = (int(lo), int(hi))
+    params = list(inspect.signature(fn).parameters.values())
+    rng = random.Random(seed)
+    out = []
+    for _ in range(n):
+        args = []
+        for prm in params:
+            if prm.annotation is bool:
+                args.append(rng.random() < 0.5)
+            elif prm.annotation is int:
+                lo, hi = bounds.get(prm.name, (-2, 6))
+                args.append(rng.randint(lo, hi))
+            else:
+                return []
+        out.append(args)
+    return out
+
+
+def replay(case):
+    """Plain-interpreter replay of a CrossHair counterexample: call the harness function concretely.
+    First in a fresh process.  CrossHair runs all paths of a condition in ONE process, so code that keeps state between
+    calls can fail on a path only because of the paths before it; if the fresh call passes, the call is repeated
+    after a fixed sequence of other calls of the same harness (a concrete history of calls in one process)."""
+    import importlib
+    inp = case['input']
+    call = inp.get('call')
+    if call is None:
+        return False, 'counterexample arguments could not be parsed: ' + case.get('what', '')[:200]
+    mod = importlib.import_module('vlib.xh.' + inp['module'])
+    fn = getattr(mod, inp['func'])
+    m = re.search(r'TAPE=(\[[^\]]*\])', case.get('what', ''))
+    import vlib.xh.xutil as xutil
+    if m:
+        xutil.REPLAY_TAPE = ast.literal_eval(m.group(1))
+    if m:
+        return _call_fails(fn, inp, call)
+    # every attempt runs in its own forked child, so that no attempt leaves state behind for the next one
+    bad, msg = _in_child(lambda: _call_fails(fn, inp, call))
+    if bad:
+        return bad, msg
+    for seed in (20261003, 7, 99, 12345):
+        warm = _warmup_calls(fn, seed=seed)
+        if not warm:
+            break
+
+        def attempt(warm=warm):
+            for args in warm:
+                try:
+                    fn(*args)
+                except BaseException:  # noqa
+                    pass
+            return _call_fails(fn, inp, call)
+        bad, msg2 = _in_child(attempt)
+        if bad:
+            return True, ('passes as the first call of a process, fails after %d other calls of the same harness in the same '
+                          'process (state kept between calls; the calls are _warmup_calls(%s, seed=%d)): %s' % (len(warm), inp['func'], seed, msg2))
+    return False, msg
+
+
+def _in_child(thunk):
+    import json
+    import os
+    rd, wr = os.pipe()
+    pid = os.fork()
+    if pid == 0:
+        try:
+            res = thunk()
+        except BaseException as e:  # noqa
+            res = (False, 'replay aborted: %r' % (e,))
+        try:
+            os.write(wr, json.dumps([bool(res[0]), str(res[1])[:3000]]).encode())
+        finally:
+            os._exit(0)
+    os.close(wr)
+    data = b''
+    while True:
+        chunk = os.read(rd, 65536)
+        if not chunk:
+            break
+        data += chunk
+    os.close(rd)
+    os.waitpid(pid, 0)
+    try:
+        bad, msg = json.loads(data.decode())
+    except ValueError:
+        bad, msg = False, 'replay produced no result'
+    return bad, msg
 
 
 def encoded(part, *objs):
